@@ -10,13 +10,16 @@ FUNCTIONS = [U + "upload_tree", U + "rename_remote", U + "finish_renames", U + "
 STUBS = ["the remote transport is a flat map name -> content token (rename refuses an occupied target, delete / rename of a "
          "missing file fail); the two trees are records; tree.changes_from is computed by the harness from the two trees "
          "(removed / renamed / modified / added, as the real delta classifies files); urlutils.escape (Rust) is the "
-         "identity on the name alphabet; upload-ignore rules answer 'not ignored'"]
+         "identity on the name alphabet; BzrUploader.is_ignored (Globster over .bzrignore-upload, see C48) is replaced by a "
+         "symbolic fact per top-level name, inherited by the paths below it"]
 ASSUMPTIONS = ["before the upload the remote directory equals the previously uploaded tree (the property's induction "
-               "hypothesis: one upload step from an arbitrary consistent state)",
+               "hypothesis: one upload step from an arbitrary consistent state), ignored paths are absent there; after the upload "
+               "the comparison leaves ignored paths out, as the property does",
                "file names are SYMBOLIC: which old name equals which new name (swaps, chains, reuse of a removed name by a "
                "renamed or added file) is decided by the solver"]
 OUTSIDE = ["directories with more than one file or nested directories, added directories, symlinks, kind changes, executable "
-           "bits, .bzrignore-upload rules, full uploads", "the temporary "
+           "bits, full uploads", "entries renamed FROM an upload-ignored name (never uploaded, so there is nothing to rename "
+           "remotely), ignore patterns that match a file inside a directory but not the directory", "the temporary "
            "names of the two-stage rename colliding with real files (assumed unique, as the code says)",
            "more files than the bound"]
 
@@ -48,6 +51,22 @@ def ob_upload(cx):
         files.append(dict(i=i, shape=shape, old=old, new=new, isdir=shape.startswith("renamed_dir"),
                           changed=shape in ("modified", "renamed+modified", "added", "renamed_dir+inner_modified")))
 
+    # upload-ignore rules (.bzrignore-upload): whether a top-level name is ignored is a symbolic fact per letter, decided when
+    # first asked; a path inside a directory is ignored with its directory (is_ignored checks every parent)
+    ign = {}
+
+    def ignored(path):
+        for letter in alpha:
+            if T(path[:1] == letter):
+                if letter not in ign:
+                    ign[letter] = bool(cx.choose("ignored_" + letter, 0, 1)) if cx.p("ignores", 1) else False
+                return ign[letter]
+        raise AssertionError("unexpected path %r" % (path,))
+    for f in files:
+        if f["shape"].startswith("renamed"):
+            # outside: an entry renamed FROM an ignored name (it was never uploaded, there is nothing to rename remotely)
+            cx.assume(not ignored(f["old"]))
+
     def old_text(f):
         return b"old-%d" % f["i"]
 
@@ -57,8 +76,8 @@ def ob_upload(cx):
     DIR = b"<directory>"
     remote = []
     for f in files:
-        if f["old"] is None:
-            continue
+        if f["old"] is None or ignored(f["old"]):
+            continue                               # an ignored path was never uploaded
         if f["shape"] == "removed_dir":
             remote.append([f["old"], DIR])
             remote.append([f["old"] + "/x", b"inside-%d" % f["i"]])
@@ -212,7 +231,7 @@ def ob_upload(cx):
             return getattr(cx.real("breezy.urlutils"), name)
     M.urlutils = UU()
     up = M.BzrUploader(Branch, Transport, None, Tree, "rev-new", quiet=True)
-    up.is_ignored = lambda relpath: False
+    up.is_ignored = ignored
     up.upload_tree()
     want = []
     for f in files:
@@ -220,8 +239,10 @@ def ob_upload(cx):
             want += [(f["new"], DIR), (f["new"] + "/x", new_text(f))]
         elif f["new"] is not None:
             want.append((f["new"], new_text(f)))
-    cx.require(len(remote) == len(want), "after the upload the remote directory has %d files, the uploaded tree has %d" %
-               (len(remote), len(want)))
+    want = [w for w in want if not ignored(w[0])]
+    visible = [ent for ent in remote if not ignored(ent[0])]
+    cx.require(len(visible) == len(want), "after the upload the remote directory has %d entries outside the ignored paths, the "
+               "uploaded tree has %d" % (len(visible), len(want)))
     for name, text in want:
         ent = find(name)
         cx.require(ent is not None, "a file of the uploaded tree is missing on the remote side")
@@ -234,6 +255,8 @@ def ob_upload(cx):
             g["new"] is not None and f["old"] is not None and T(g["new"] == f["old"]) for f in files if f["shape"] == "removed"
             for g in files if g is not f):
         cx.cover("name_reused")
+    if any(f["shape"].startswith("renamed") and ignored(f["new"]) for f in files):
+        cx.cover("renamed_to_ignored_name")
     if any(f["shape"] == "renamed+modified" for f in files):
         cx.cover("renamed_and_modified")
     if any(f["shape"] == "removed_dir" and any(g["new"] is not None and T(g["new"] == f["old"]) for g in files if g is not f)
@@ -249,7 +272,8 @@ def obligations(tier):
     p = dict(nfiles=2 if q else 3)
     return [Ob("incremental_upload", ob_upload, [UP], p, 900 if q else 7200, 2 if q else 1,
                ["rename_chain_or_swap", "name_reused", "renamed_and_modified", "directory_replaced_by_file",
-                "modified_inside_renamed_directory"],
+                "modified_inside_renamed_directory", "renamed_to_ignored_name"],
                bounds="<= %(nfiles)d entries (file unchanged / modified / removed / added / renamed / renamed and modified; directory with one "
                       "file removed / renamed / renamed with the file inside modified) with symbolic "
-                      "one-letter names over 4 letters: every pattern of coinciding old and new names" % p)]
+                      "one-letter names over 4 letters: every pattern of coinciding old and new names; each name upload-ignored or not "
+                      "(symbolic), except that a renamed entry's old name is not ignored" % p)]
